@@ -86,27 +86,31 @@ Proof. exact erase_annotate_all. Qed.
 Print Assumptions erase_annotate.
 
 (* enum member values computed by the visitor satisfy the TypeScript handbook
-   rules, for every member list whose values stay in the modelled domain and
-   whose initialisers avoid the operand pairs on which math.Pow differs from
-   ECMA-262 *)
+   rules, for every member list whose values stay in the modelled domain
+   (integer-valued numbers |v| <= 2^53, NaN, +-Infinity, strings) -- "**" included
+   since /repo 9e1822e *)
 Theorem enum_values_spec : forall ms,
-  pow_ok_members st0 ms = true ->
   forallb (fun v => match v with VOut => false | _ => true end) (enum_values ms) = true ->
   SpecEnum [] None ms (enum_values ms).
 Proof. exact enum_values_spec_all. Qed.
 Print Assumptions enum_values_spec.
 
-(* constant folding of initialisers agrees with ECMAScript evaluation *)
-Theorem enum_fold_sound : forall known e, pow_ok known e = true -> eval go_pow known e = eval js_pow known e.
+(* constant folding of initialisers agrees with ECMAScript evaluation, for every
+   expression and every environment of earlier members (no side condition: the
+   special cases 1 ** NaN, (+-1) ** +-Infinity are now NaN as in ECMA-262) *)
+Theorem enum_fold_sound : forall known e, eval go_pow known e = eval js_pow known e.
 Proof. exact eval_agree. Qed.
 Print Assumptions enum_fold_sound.
 
-(* without that side condition the statement is false of the faithful model
-   (DESIGN section 7-B): enum E { A = 1 ** (0/0) } *)
-Theorem enum_pow_special_refuted :
-  enum_values pow_witness = [VNum 1] /\ ~ SpecEnum [] None pow_witness [VNum 1] /\ SpecEnum [] None pow_witness [VNaN].
+Theorem enum_pow_is_ecmascript : forall a b, go_pow a b = js_pow a b.
+Proof. exact pow_agree. Qed.
+Print Assumptions enum_pow_is_ecmascript.
+
+(* the former counter-example (DESIGN section 7-B): enum E { A = 1 ** (0/0) } *)
+Theorem enum_pow_special_witness :
+  enum_values pow_witness = [VNaN] /\ SpecEnum [] None pow_witness [VNaN] /\ ~ SpecEnum [] None pow_witness [VNum 1].
 Proof. exact enum_pow_witness. Qed.
-Print Assumptions enum_pow_special_refuted.
+Print Assumptions enum_pow_special_witness.
 
 (* class-field semantics selected by tsconfig: the table generated from the
    switch over "target" in ParseTSConfigJSON is TypeScript's rule for the default
